@@ -1447,3 +1447,422 @@ func presizeRule(R string) RuleFunc {
 		c.OKd(R, "inventory", "-", core.F("%d functions scanned", funcs), core.F("%d pre-sized slices grown by append", n))
 	}
 }
+
+// inQuotesRule: Unquote decodes exactly what the classifiers call a string.
+func inQuotesRule(R string) RuleFunc {
+	return func(c *core.Ctx) {
+		c.Rule(R, "Bytes.InQuotes() - the guard under which Bytes.Unquote() decodes a literal - has the same symbolic accept set as json.GuessData.IsString(), the test by which the scanner-side classifier calls a literal a string (length >= 2, first and last byte a quotation mark). A literal that is a string for the classifier but not `in quotes` for Unquote is validated in its escaped spelling: a regex or enum is matched against `\"x\\\\\"` with its quotes and backslashes")
+		c.Floor(R, 1)
+		norm := func(s string) string {
+			for _, v := range []string{"sel:.data(sel:.bytes(param:g))", "load:&g.data", "sel:.data(param:g)", "sel:.data(param:b)", "load:&b.data"} {
+				s = strings.ReplaceAll(s, v, "DATA")
+			}
+			return s
+		}
+		inl := []string{"(bytes.Bytes).Len", "(bytes.Bytes).FirstByte", "(bytes.Bytes).LastByte", "(bytes.Bytes).String"}
+		predEquiv(c, R, "(bytes.Bytes).InQuotes", "(json.GuessData).IsString", inl, norm, "Unquote() and the classifier json.Guess disagree on which literals are quoted strings")
+	}
+}
+
+// falseRulesRule: a rule that is read by its mere presence does not survive with the value false.
+func falseRulesRule(R string) RuleFunc {
+	return func(c *core.Ctx) {
+		c.Rule(R, "the checker, the example builder and the OpenAPI converter read some boolean rules by their mere presence (`node.Constraint(constraint.NullableConstraintType) != nil`, `m.Get(...)` with only the ok result used): for every boolean-valued constraint type read that way outside the compiler, schemaCompiler.falseConstraints - run first for every node - removes the constraint when its value is false (its filter names the type and returns false under `!Bool()`). Otherwise `nullable: false` makes a node accept null")
+		c.Floor(R, 2)
+		// boolean-valued constraint types: the struct behind NewX implements BoolKeeper
+		bk := c.P.NamedType("notations/jschema/ischema/constraint", "BoolKeeper")
+		if bk == nil {
+			c.Unresolved(R, "constraint.BoolKeeper")
+			return
+		}
+		iface, _ := bk.Underlying().(*types.Interface)
+		boolType := map[string]bool{}
+		cpk := c.P.Pkg("notations/jschema/ischema/constraint")
+		for _, nm := range cpk.Types.Scope().Names() {
+			tn, ok := cpk.Types.Scope().Lookup(nm).(*types.TypeName)
+			if !ok {
+				continue
+			}
+			if _, isStruct := tn.Type().Underlying().(*types.Struct); !isStruct {
+				continue
+			}
+			if types.Implements(tn.Type(), iface) || types.Implements(types.NewPointer(tn.Type()), iface) {
+				boolType[nm+"ConstraintType"] = true
+			}
+		}
+		// presence reads outside the compiler
+		need := map[string]string{}
+		for _, d := range c.P.FuncDecls() {
+			rel := core.Rel(d.Pkg.PkgPath)
+			if d.Decl.Body == nil || !(rel == "notations/jschema/checker" || rel == "notations/jschema" || strings.HasPrefix(rel, "openapi")) {
+				continue
+			}
+			ast.Inspect(d.Decl.Body, func(n ast.Node) bool {
+				be, ok := n.(*ast.BinaryExpr)
+				if ok && (be.Op == token.NEQ || be.Op == token.EQL) && core.ExprStr(be.Y) == "nil" {
+					if call, isC := ast.Unparen(be.X).(*ast.CallExpr); isC && len(call.Args) == 1 {
+						if sel, isS := call.Fun.(*ast.SelectorExpr); isS && sel.Sel.Name == "Constraint" {
+							if a, isA := call.Args[0].(*ast.SelectorExpr); isA && boolType[a.Sel.Name] {
+								need[a.Sel.Name] = c.P.Pos(be.Pos())
+							}
+						}
+					}
+				}
+				if as, isAs := n.(*ast.AssignStmt); isAs && len(as.Lhs) == 2 && len(as.Rhs) == 1 && core.ExprStr(as.Lhs[0]) == "_" {
+					if call, isC := as.Rhs[0].(*ast.CallExpr); isC && len(call.Args) == 1 {
+						if sel, isS := call.Fun.(*ast.SelectorExpr); isS && sel.Sel.Name == "Get" {
+							if a, isA := call.Args[0].(*ast.SelectorExpr); isA && boolType[a.Sel.Name] {
+								need[a.Sel.Name] = c.P.Pos(as.Pos())
+							}
+						}
+					}
+				}
+				return true
+			})
+		}
+		// what falseConstraints removes
+		d := c.P.FindDecl("(notations/jschema/loader.schemaCompiler).falseConstraints")
+		if d == nil {
+			c.Unresolved(R, "(notations/jschema/loader.schemaCompiler).falseConstraints")
+			return
+		}
+		removed := map[string]bool{}
+		ast.Inspect(d.Decl.Body, func(n ast.Node) bool {
+			ifs, ok := n.(*ast.IfStmt)
+			if !ok {
+				return true
+			}
+			// the inner test must lead to `return false` under !Bool()
+			drops := false
+			ast.Inspect(ifs.Body, func(m ast.Node) bool {
+				if in, ok := m.(*ast.IfStmt); ok && strings.Contains(core.ExprStr(in.Cond), "!") && strings.Contains(core.ExprStr(in.Cond), ".Bool()") {
+					for _, st := range in.Body.List {
+						if r, ok := st.(*ast.ReturnStmt); ok && len(r.Results) == 1 && core.ExprStr(r.Results[0]) == "false" {
+							drops = true
+						}
+					}
+				}
+				return true
+			})
+			if !drops {
+				return true
+			}
+			ast.Inspect(ifs.Cond, func(m ast.Node) bool {
+				if be, ok := m.(*ast.BinaryExpr); ok && be.Op == token.EQL {
+					if a, ok := be.Y.(*ast.SelectorExpr); ok {
+						removed[a.Sel.Name] = true
+					}
+				}
+				return true
+			})
+			return true
+		})
+		var names []string
+		for n := range need {
+			names = append(names, n)
+		}
+		sort.Strings(names)
+		for _, n := range names {
+			c.Check(removed[n], R, "falseConstraints:"+n, need[n], n+" is read by presence (e.g. here) and removed by falseConstraints when false", "a `"+strings.ToLower(strings.TrimSuffix(n, "ConstraintType"))+": false` rule stays in the node and is read as true by the presence test")
+		}
+		// falseConstraints runs before everything else in compileNode
+		if cd := c.P.FindDecl("(notations/jschema/loader.schemaCompiler).compileNode"); cd == nil {
+			c.Unresolved(R, "(notations/jschema/loader.schemaCompiler).compileNode")
+		} else {
+			first := false
+			for _, st := range cd.Decl.Body.List {
+				es, ok := st.(*ast.ExprStmt)
+				if !ok {
+					continue
+				}
+				call, ok := es.X.(*ast.CallExpr)
+				if !ok || !strings.HasPrefix(core.FullName(core.Callee(cd.Pkg, call)), "(notations/jschema/loader.schemaCompiler).") {
+					continue
+				}
+				first = strings.HasSuffix(core.ExprStr(call.Fun), ".falseConstraints")
+				break
+			}
+			c.Check(first, R, "compileNode:first", c.P.Pos(cd.Decl.Pos()), "compileNode starts with falseConstraints(node)", "the false rules are not removed before the node is compiled")
+		}
+	}
+}
+
+// enumMemberRule: membership in an enum compares value and kind.
+func enumMemberRule(R string) RuleFunc {
+	return func(c *core.Ctx) {
+		c.Rule(R, "constraint.Enum.Validate decides membership by comparing the whole ⟨decoded value, JSON kind⟩ item of the example with the items of the rule (`aa.enumItemValue == b.enumItemValue`, or both fields) - the same key Append uses for its uniqueness index and ASTNode for the OpenAPI `enum`. Compared by text alone, the string \"1\" is a member of [1, 2]: the schema is accepted and its Schema Object `{example: \"1\", enum: [1,2]}` does not contain the example")
+		c.Floor(R, 1)
+		const fn = "(notations/jschema/ischema/constraint.Enum).Validate"
+		d := c.P.FindDecl(fn)
+		if d == nil {
+			c.Unresolved(R, fn)
+			return
+		}
+		fields := map[string]bool{}
+		ast.Inspect(d.Decl.Body, func(n ast.Node) bool {
+			be, ok := n.(*ast.BinaryExpr)
+			if !ok || be.Op != token.EQL {
+				return true
+			}
+			x, okx := be.X.(*ast.SelectorExpr)
+			y, oky := be.Y.(*ast.SelectorExpr)
+			if okx && oky && x.Sel.Name == y.Sel.Name {
+				fields[x.Sel.Name] = true
+			}
+			return true
+		})
+		var fs []string
+		for f := range fields {
+			fs = append(fs, f)
+		}
+		sort.Strings(fs)
+		ok := fields["enumItemValue"] || (fields["value"] && fields["jsonType"])
+		c.Check(ok, R, fn+":compare", c.P.Pos(d.Decl.Pos()), "Validate compares "+strings.Join(fs, ", ")+" of the example and of each item", "membership is decided without the JSON kind (compared: "+strings.Join(fs, ", ")+"): a string is a member of a list of numbers with the same text")
+	}
+}
+
+// keyTypeRule: a choice is a string key type only when every alternative is one.
+func keyTypeRule(R string) RuleFunc {
+	return func(c *core.Ctx) {
+		c.Rule(R, "checker.actualRootTypeOf - the JSON type of a user type used as a key shortcut - answers T for a choice `@a | @b | ...` exactly when every alternative resolves to the same T, and `mixed` otherwise. The branch for choices is tabulated with the recursive call replaced by every sequence of results over {string, object, mixed} for 1, 2 and 3 alternatives (39 cells). If the last (or first) alternative decides alone, `{ @key: 1 }` with @key = `@obj | @str` is accepted and Example() writes an object where a key must stand: not JSON")
+		c.Floor(R, 1)
+		const fn = "notations/jschema/checker.actualRootTypeOf"
+		d := c.P.FindDecl(fn)
+		if d == nil {
+			c.Unresolved(R, fn)
+			return
+		}
+		// the branch `if n, ok := s.RootNode().(*ischema.MixedValueNode); ok { ... }` and what follows it
+		var branch *ast.IfStmt
+		var after []ast.Stmt
+		for i, st := range d.Decl.Body.List {
+			if ifs, ok := st.(*ast.IfStmt); ok && ifs.Init != nil && strings.Contains(core.ExprStr0(ifs.Init), "MixedValueNode") {
+				branch = ifs
+				after = d.Decl.Body.List[i+1:]
+			}
+		}
+		if branch == nil {
+			c.Bad(R, fn+":choice", c.P.Pos(d.Decl.Pos()), "the branch for choices", "not found (`if n, ok := s.RootNode().(*ischema.MixedValueNode); ok`)")
+			return
+		}
+		tpk := c.P.Pkg("json")
+		val := func(name string) int64 {
+			if o := tpk.Types.Scope().Lookup(name); o != nil {
+				if k, ok := o.(*types.Const); ok {
+					n, _ := constantInt64(k.Val())
+					return n
+				}
+			}
+			return -1
+		}
+		str, obj, mixed := val("TypeString"), val("TypeObject"), val("TypeMixed")
+		kinds := []int64{str, obj, mixed}
+		bad := ""
+		cells := 0
+		var gen func(seq []int64, k int)
+		gen = func(seq []int64, k int) {
+			if bad != "" {
+				return
+			}
+			if len(seq) < k {
+				for _, t := range kinds {
+					gen(append(append([]int64(nil), seq...), t), k)
+				}
+				return
+			}
+			cells++
+			e := &miniEval{pk: d.Pkg, env: map[string]int64{"err": 0}, maps: map[string]map[int64]bool{}}
+			if len(d.Decl.Type.Params.List) > 0 {
+				last := d.Decl.Type.Params.List[len(d.Decl.Type.Params.List)-1]
+				for _, nm := range last.Names {
+					e.maps[nm.Name] = map[int64]bool{}
+				}
+			}
+			loopVar := ""
+			e.rng = func(x ast.Expr) ([]int64, bool) {
+				if strings.HasSuffix(core.ExprStr(x), ".GetTypes()") {
+					out := make([]int64, k)
+					for i := range out {
+						out[i] = int64(i)
+					}
+					return out, true
+				}
+				return nil, false
+			}
+			e.hook = func(x ast.Expr) (int64, bool) {
+				if id, ok := x.(*ast.Ident); ok && id.Name == "nil" {
+					return 0, true
+				}
+				return 0, false
+			}
+			e.tuple = func(call *ast.CallExpr) ([]int64, bool) {
+				if strings.HasSuffix(core.FullName(core.Callee(d.Pkg, call)), "ISchema).Type") {
+					return []int64{0, 0}, true
+				}
+				return nil, false
+			}
+			e.call = func(call *ast.CallExpr) (int64, bool) {
+				if core.FullName(core.Callee(d.Pkg, call)) == fn {
+					// which alternative is being resolved: the loop variable of the range
+					if loopVar == "" {
+						ast.Inspect(branch.Body, func(n ast.Node) bool {
+							if rs, ok := n.(*ast.RangeStmt); ok && rs.Value != nil {
+								loopVar = core.ExprStr(rs.Value)
+							}
+							return true
+						})
+					}
+					return seq[e.env[loopVar]], true
+				}
+				return 0, false
+			}
+			st, rets := e.run(append(append([]ast.Stmt(nil), branch.Body.List...), after...))
+			want := seq[0]
+			for _, t := range seq {
+				if t != seq[0] {
+					want = mixed
+				}
+			}
+			switch {
+			case e.unknown != "":
+				bad = "undecided: " + e.unknown
+			case st != miniReturn || len(rets) != 1:
+				bad = core.F("alternatives %v: no value returned", seq)
+			case rets[0] != want:
+				bad = core.F("alternatives resolve to %v (string=%d, object=%d, mixed=%d): answers %d, expected %d", seq, str, obj, mixed, rets[0], want)
+			}
+		}
+		for k := 1; k <= 3; k++ {
+			gen(nil, k)
+		}
+		c.Check(bad == "", R, fn+":choice", c.P.Pos(branch.Pos()), core.F("a choice has type T exactly when all alternatives have type T (%d cells)", cells), bad)
+	}
+}
+
+// inheritAllRule: allOf copies every property of the inherited type, inherited ones included.
+func inheritAllRule(R string) RuleFunc {
+	return func(c *core.Ctx) {
+		c.Rule(R, "allOfConstraintCompiler.extendWith copies EVERY child of the inherited object: the loop over fromObject.Children() has no continue / break / return, and the AddChild call is not under a condition. The inherited type is compiled before it is used (processType), so its children include what it inherited itself; skipping some of them (for instance those with a non-empty InheritedFrom) makes inheritance stop after one level - a required link back to the root declared two levels up is lost, Check() accepts a type that requires itself")
+		c.Floor(R, 2)
+		const fn = "(*notations/jschema/loader.allOfConstraintCompiler).extendWith"
+		d := c.P.FindDecl(fn)
+		if d == nil {
+			c.Unresolved(R, fn)
+			return
+		}
+		found := false
+		ast.Inspect(d.Decl.Body, func(n ast.Node) bool {
+			rs, ok := n.(*ast.RangeStmt)
+			if !ok || !strings.HasSuffix(core.ExprStr(rs.X), ".Children()") {
+				return true
+			}
+			found = true
+			bad := ""
+			var stack []ast.Node
+			addChild := false
+			ast.Inspect(rs.Body, func(m ast.Node) bool {
+				if m == nil {
+					stack = stack[:len(stack)-1]
+					return true
+				}
+				stack = append(stack, m)
+				switch x := m.(type) {
+				case *ast.BranchStmt:
+					bad = x.Tok.String() + " at " + c.P.Pos(x.Pos())
+				case *ast.ReturnStmt:
+					bad = "return at " + c.P.Pos(x.Pos())
+				case *ast.CallExpr:
+					if sel, ok := x.Fun.(*ast.SelectorExpr); ok && sel.Sel.Name == "AddChild" {
+						addChild = true
+						for _, a := range stack {
+							if _, isIf := a.(*ast.IfStmt); isIf {
+								bad = "AddChild is conditional"
+							}
+							if _, isSw := a.(*ast.SwitchStmt); isSw {
+								bad = "AddChild is conditional"
+							}
+						}
+					}
+				}
+				return true
+			})
+			if !addChild && bad == "" {
+				bad = "no AddChild call in the loop"
+			}
+			c.Check(bad == "", R, "extendWith:children", c.P.Pos(rs.Pos()), "every child of the inherited object is copied into the inheriting one", "some children are skipped ("+bad+")")
+			return true
+		})
+		if !found {
+			c.Bad(R, "extendWith:children", c.P.Pos(d.Decl.Pos()), "loop over the children of the inherited object", "not found")
+		}
+		// the inherited type is compiled first: extendWith obtains it through processType
+		viaProcess := false
+		ast.Inspect(d.Decl.Body, func(n ast.Node) bool {
+			if call, ok := n.(*ast.CallExpr); ok && strings.HasSuffix(core.FullName(core.Callee(d.Pkg, call)), "allOfConstraintCompiler).processType") {
+				viaProcess = true
+			}
+			return true
+		})
+		c.Check(viaProcess, R, "extendWith:compiled-first", c.P.Pos(d.Decl.Pos()), "the inherited type is obtained through processType (its own allOf is expanded first)", "the inherited type is used before its own inheritance is expanded")
+	}
+}
+
+// unnamedNameRule: the generated names of unnamed types are unique across schema objects.
+func unnamedNameRule(R string) RuleFunc {
+	return func(c *core.Ctx) {
+		c.Rule(R, "unnamed types are copied from the type map of one schema object into the map of another under their generated names (AddUnnamedTypes, extendWith), so the name ISchema.AddUnnamedType generates must be unique across schema objects: it is formatted from the identity of the added type (the pointer argument) or from a package-level counter - not from the state of the receiving schema alone (`len(s.types)`, a per-schema counter), which repeats in every schema and lets the copied types of a registered type replace the root's own. (That the present `%p` names are not reproducible is the known finding C09.addr.)")
+		c.Floor(R, 1)
+		const fn = "(*notations/jschema/ischema.ISchema).AddUnnamedType"
+		d := c.P.FindDecl(fn)
+		if d == nil {
+			c.Unresolved(R, fn)
+			return
+		}
+		recv := d.Decl.Recv.List[0].Names[0].Name
+		params := map[string]bool{}
+		for _, f := range d.Decl.Type.Params.List {
+			for _, n := range f.Names {
+				params[n.Name] = true
+			}
+		}
+		ok, detail := false, "the name expression was not found (name := fmt.Sprintf(...))"
+		ast.Inspect(d.Decl.Body, func(n ast.Node) bool {
+			call, isC := n.(*ast.CallExpr)
+			if !isC || core.FullName(core.Callee(d.Pkg, call)) != "fmt.Sprintf" || len(call.Args) < 2 {
+				return true
+			}
+			usesParam, usesRecvOnly, usesGlobal := false, true, false
+			for _, a := range call.Args[1:] {
+				ast.Inspect(a, func(m ast.Node) bool {
+					id, isID := m.(*ast.Ident)
+					if !isID {
+						return true
+					}
+					switch {
+					case params[id.Name]:
+						usesParam, usesRecvOnly = true, false
+					case id.Name == recv:
+					default:
+						if o := d.Pkg.TypesInfo.Uses[id]; o != nil {
+							if v, isVar := o.(*types.Var); isVar && v.Parent() == d.Pkg.Types.Scope() {
+								usesGlobal, usesRecvOnly = true, false
+							}
+							if f, isF := o.(*types.Func); isF && f.Pkg() != nil && f.Pkg().Path() == "sync/atomic" {
+								usesGlobal, usesRecvOnly = true, false
+							}
+						}
+					}
+					return true
+				})
+			}
+			switch {
+			case usesParam || usesGlobal:
+				ok = true
+			case usesRecvOnly:
+				detail = "the name is formatted from the state of the receiving schema only (" + core.ExprStr(call) + "): the same names are generated in every schema object"
+			}
+			return true
+		})
+		c.Check(ok, R, fn+":name", c.P.Pos(d.Decl.Pos()), "the generated name depends on the identity of the added type or on a package-level counter", detail)
+	}
+}
